@@ -70,6 +70,51 @@ Proof.
     split; [constructor|reflexivity].
 Qed.
 
+(* ------------------------------------------------------------------ the connection handler's script *)
+Lemma setters_collapse st q1 r1 n1 q2 r2 n2 :
+  set_next_gid (set_r_sent (set_sq (set_next_gid (set_r_sent (set_sq st q1) r1) n1) q2) r2) n2 =
+  set_next_gid (set_r_sent (set_sq st q2) r2) n2.
+Proof. destruct st; reflexivity. Qed.
+
+Lemma gset_subm_twice g a b : gset_subm (gset_subm g (g_subm g ++ a)) (g_subm (gset_subm g (g_subm g ++ a)) ++ b) =
+                              gset_subm g (g_subm g ++ a ++ b).
+Proof. destruct g; cbn. rewrite <- app_assoc. reflexivity. Qed.
+
+Lemma user_send_spec st t :
+  exists q r n ids,
+    fst (user_send st t) = set_next_gid (set_r_sent (set_sq st q) r) n /\
+    (forall g, gfold g (snd (user_send st t)) = gset_subm g (g_subm g ++ ids)) /\
+    next_gid st <= n.
+Proof.
+  unfold user_send. destruct (connected st && neg_done st).
+  - destruct (send_raw_spec (set_next_gid st (next_gid st + 1)) (next_gid st) OUser t false)
+      as (q & r & n & tl & E & _ & _ & Hn & _ & S).
+    destruct (send_raw_ (set_next_gid st (next_gid st + 1)) (next_gid st) OUser t false) as [st1 o1].
+    cbn [fst snd] in *. exists q, r, n, [next_gid st]. split; [rewrite E; destruct st; reflexivity|]. split.
+    + intros g. rewrite gfold_cons. cbn [gout gapply]. apply gfold_silent, S.
+    + cbn in Hn. lia.
+  - exists (sq st), (r_sent st), (next_gid st), []. split; [destruct st; reflexivity|]. split; [|lia].
+    intros g. cbn. rewrite app_nil_r. destruct g; reflexivity.
+Qed.
+
+Lemma script_spec l st :
+  exists q r n ids,
+    fst (run_script l st) = set_next_gid (set_r_sent (set_sq st q) r) n /\
+    (forall g, gfold g (snd (run_script l st)) = gset_subm g (g_subm g ++ ids)) /\
+    next_gid st <= n.
+Proof.
+  revert st; induction l as [|t l IH]; intros st.
+  - exists (sq st), (r_sent st), (next_gid st), []. split; [destruct st; reflexivity|]. split; [|lia].
+    intros g. cbn. rewrite app_nil_r. destruct g; reflexivity.
+  - cbn [run_script]. destruct (user_send_spec st t) as (q1 & r1 & n1 & ids1 & E1 & G1 & H1).
+    destruct (user_send st t) as [st1 o1]. cbn [fst snd] in *.
+    destruct (IH st1) as (q2 & r2 & n2 & ids2 & E2 & G2 & H2).
+    destruct (run_script l st1) as [st2 o2]. cbn [fst snd] in *.
+    exists q2, r2, n2, (ids1 ++ ids2). split; [rewrite E2, E1; apply setters_collapse|]. split.
+    + intros g. rewrite gfold_app, G1, G2. apply gset_subm_twice.
+    + rewrite E1 in H2. cbn in H2. lia.
+Qed.
+
 (* ------------------------------------------------------------------ C05 and the activity flag: holds on every history *)
 Definition inv1 (s : sys) : Prop :=
   sm_enabled (fst s) = g_active (snd s) /\
@@ -305,9 +350,22 @@ Ltac abs_resend :=
 Ltac unf := unfold dispatch, fire, sm_handle, handle_sm, handle_bind, handle_features in *;
   unfold sm_enable, do_bind, xmpp_disconnect, stream_end in *;
   unfold send_lib, neg_success, sm_err, reset_sm_state, mark_in, disconnect, do_connect, cb, user_send in *.
-Ltac gsil := repeat match goal with H : forallb silent ?o = true |- context[gfold ?g ?o] => rewrite (gfold_silent g o H) end.
+Ltac gsil := repeat match goal with
+  | H : forallb silent ?o = true |- context[gfold ?g ?o] => rewrite (gfold_silent g o H)
+  | H : forall g, gfold g ?o = _ |- context[gfold ?g0 ?o] => rewrite (H g0)
+  end.
+Ltac abs_script :=
+  match goal with
+  | |- context[run_script ?l ?st] =>
+      let q := fresh "q" in let r1 := fresh "r" in let n := fresh "n" in let ids := fresh "ids" in
+      let E := fresh "E" in let G := fresh "Gs" in let Hn := fresh "Hn" in
+      destruct (script_spec l st) as (q & r1 & n & ids & E & G & Hn);
+      let st1 := fresh "st" in let o1 := fresh "o" in
+      destruct (run_script l st) as [st1 o1]; cbn [fst snd] in E, G; subst st1
+  end.
 Ltac brk :=
   match goal with
+  | |- context[run_script _ _] => abs_script
   | |- context[send_raw_ _ _ _ _ _] => abs_send
   | |- context[resend _ _] => abs_resend
   | |- context[let '(_, _) := cleanup ?l ?h in _] => destruct (cleanup l h) eqn:?
@@ -362,7 +420,7 @@ Qed.
 Lemma inv1_step bt s a : inv1 s -> inv1 (sys_step bt s a).
 Proof.
   destruct s as [st g]. intros H. unfold sys_step, step. cbn [fst snd].
-  destruct a as [t|sched|it| | |].
+  destruct a as [t|sched|it| | | |l0].
   - (* send *)
     destruct H as (A & B & C). cbn [fst snd] in *. unfold inv1. unf.
     repeat (brk; cbn [fst snd] in * ); gn; gsil; cbn; auto.
@@ -395,6 +453,7 @@ Proof.
   - (* connect *)
     destruct H as (A & B & C). cbn [fst snd] in *. unfold inv1. unf.
     repeat (brk; cbn [fst snd] in * ); gn; cbn; auto.
+  - exact H.
 Qed.
 
 Lemma inv1_run bt l s : inv1 s -> inv1 (sys_run bt s l).
@@ -506,18 +565,82 @@ Qed.
 Lemma list_eqb_refl l : list_eqb l l = true.
 Proof. induction l as [|a l IH]; [reflexivity|]. cbn. rewrite Z.eqb_refl. exact IH. Qed.
 
+Lemma filter_cq_tail q e tl : forallb (fun e => negb (countable (q_owner e))) tl = true ->
+  map q_gid (filter cq (q ++ e :: tl)) = map q_gid (filter cq q) ++ (if cq e then [q_gid e] else []).
+Proof.
+  intros T. rewrite filter_app. cbn [filter]. rewrite (filter_none cq tl T). rewrite map_app.
+  destruct (cq e); reflexivity.
+Qed.
+
+(* appending one element with _send_raw: effect on the counted queue *)
+Lemma sqc_send st q g o t rs tl r n :
+  q = sq st ++ mk_sqe g o t 0 rs :: tl ->
+  forallb (fun e => negb (countable (q_owner e))) tl = true ->
+  sqc (set_next_gid (set_r_sent (set_sq st q) r) n) = sqc st ++ (if countable o then [g] else []).
+Proof.
+  intros E T. subst q. unfold sqc, sq_countable. cbn [sq set_next_gid set_r_sent set_sq]. fold cq.
+  rewrite filter_cq_tail by exact T. reflexivity.
+Qed.
+
+(* what the connection handler's script adds to the counted send queue *)
+Lemma script_sqc l st :
+  connected st = true -> neg_done st = true ->
+  exists news, sqc (fst (run_script l st)) = sqc st ++ news /\ length news = length l /\
+               Forall (fun x => next_gid st <= x) news.
+Proof.
+  revert st; induction l as [|t l IH]; intros st C Nd.
+  - exists []. cbn. rewrite app_nil_r. repeat split. constructor.
+  - cbn [run_script]. unfold user_send. rewrite C, Nd. cbn [andb].
+    destruct (send_raw_spec (set_next_gid st (next_gid st + 1)) (next_gid st) OUser t false)
+      as (q & r & n & tl & E & Eq & Tl & Hn & _ & _).
+    destruct (send_raw_ (set_next_gid st (next_gid st + 1)) (next_gid st) OUser t false) as [st1 o1].
+    cbn [fst snd] in *. cbn [eff_owner] in Eq. cbn in Hn.
+    assert (C1 : connected st1 = true) by (rewrite E; exact C).
+    assert (N1 : neg_done st1 = true) by (rewrite E; exact Nd).
+    assert (Q1 : sqc st1 = sqc st ++ [next_gid st]).
+    { rewrite E. rewrite (sqc_send _ _ _ _ _ _ _ r n Eq Tl). reflexivity. }
+    assert (G1 : next_gid st1 = n) by (rewrite E; reflexivity).
+    destruct (IH st1 C1 N1) as (news & I1 & I2 & I3).
+    destruct (run_script l st1) as [st2 o2]. cbn [fst snd] in *.
+    exists (next_gid st :: news). split; [rewrite I1, Q1, <- app_assoc; reflexivity|]. split; [cbn; rewrite I2; reflexivity|].
+    constructor; [lia|]. eapply Forall_impl; [|exact I3]. cbn. intros; lia.
+Qed.
+
+(* _stream_negotiation_success: the connection handler's stanzas go behind everything that is queued *)
+Lemma neg_success_spec st :
+  connected st = true ->
+  let r := neg_success st in
+  exists news,
+    sqc (fst r) = sqc st ++ news /\
+    (neg_done st = false -> length news = length (on_connect st)) /\
+    Forall (fun x => next_gid st <= x) news /\
+    smq (fst r) = smq st /\ sent_nr (fst r) = sent_nr st /\ sm_enabled (fst r) = sm_enabled st /\
+    neg_done (fst r) = true /\ connected (fst r) = true /\ h_sm (fst r) = h_sm st /\ h_feat (fst r) = h_feat st /\
+    handled_nr (fst r) = handled_nr st.
+Proof.
+  intros C. cbn zeta. unfold neg_success. destruct (neg_done st) eqn:Nd.
+  - exists []. cbn. rewrite app_nil_r. repeat split; auto. intros X; discriminate X.
+  - destruct (script_sqc (on_connect (set_neg_done st true)) (set_neg_done st true) C eq_refl) as (news & I1 & I2 & I3).
+    destruct (script_spec (on_connect (set_neg_done st true)) (set_neg_done st true)) as (q & r & n & ids & E & _ & _).
+    destruct (run_script (on_connect (set_neg_done st true)) (set_neg_done st true)) as [st2 o2]. cbn [fst snd] in *.
+    exists news. split; [exact I1|]. split; [intros _; exact I2|]. split; [exact I3|].
+    rewrite E. cbn. rewrite C. repeat split; reflexivity.
+Qed.
+
 (* <resumed h>: numbering continues at h, exactly the elements numbered h and above are queued again, in order,
    behind what is already in the send queue (nothing can be, see sm_resends_first) and the SM queue is empty *)
 Lemma c04_resumed_step bt st pv h :
-  connected st = true -> h_sm st = true -> previd st = Some pv -> hs_sorted (smq st) ->
+  connected st = true -> h_sm st = true -> neg_done st = false -> previd st = Some pv -> hs_sorted (smq st) ->
   Forall (fun e => s_owner e = OUser) (smq st) ->
   let r := dispatch bt st (ISm (SmResumed (Some pv) (Some h))) in
+  exists news,
   smq (fst r) = [] /\
-  sqc (fst r) = sqc st ++ map s_gid (filter (fun e => h <=? s_h e) (smq st)) /\
+  sqc (fst r) = sqc st ++ map s_gid (filter (fun e => h <=? s_h e) (smq st)) ++ news /\
+  length news = length (on_connect st) /\ Forall (fun x => next_gid st <= x) news /\
   In (OG (GRelease (map s_gid (filter (fun e => s_h e <? h) (smq st))))) (snd r) /\
   sent_nr (fst r) = w32 h /\ sm_enabled (fst r) = true /\ neg_done (fst r) = true.
 Proof.
-  intros C H P S F. cbn zeta. unfold dispatch, fire. rewrite C, H. cbn [negb].
+  intros C H Nd P S F. cbn zeta. unfold dispatch, fire. rewrite C, H. cbn [negb].
   unfold handle_sm. cbn [previd set_h_sm]. rewrite P, list_eqb_refl.
   cbn [smq set_sent_nr set_sm_bound set_bound set_previd set_sm_id set_sm_enabled set_h_sm].
   rewrite (cleanup_sorted _ h S).
@@ -527,17 +650,25 @@ Proof.
   assert (C0 : connected st0 = true) by exact C.
   assert (Fk : Forall (fun e => s_owner e = OUser) kept).
   { unfold kept. rewrite Forall_forall in *. intros x I. apply filter_In in I as [I _]. apply F, I. }
-  destruct (resend_g1 kept st0 C0 Fk) as (R1 & _ & _).
+  destruct (resend_g1 kept st0 C0 Fk) as (R1 & _ & R3).
   destruct (resend_frame kept st0) as (q & r1 & n & E & Sil).
   destruct (resend kept st0) as [st2 o2]. cbn [fst snd] in *.
-  unfold neg_success.
+  assert (E1 : connected st2 = true) by (rewrite E; exact C).
   assert (E2 : sm_enabled st2 = true) by (rewrite E; reflexivity).
   assert (E3 : smq st2 = []) by (rewrite E; cbn; destruct kept; reflexivity).
   assert (E4 : sent_nr st2 = w32 h) by (rewrite E; reflexivity).
-  destruct (neg_done st2) eqn:En; cbn [fst snd]; cbn [sm_enabled set_neg_done]; rewrite E2; unfold sm_handle; cbn [fst snd];
-    (split; [exact E3|split; [unfold sqc, sq_countable in *; subst st0; cbn [sq set_neg_done set_sent_nr set_sm_bound set_bound set_previd set_sm_id set_sm_enabled set_h_sm set_smq] in *; rewrite R1; reflexivity|split; [|split; [exact E4|split; [exact E2|auto]]]]]).
-  - right. left. reflexivity.
-  - right. left. reflexivity.
+  assert (E5 : neg_done st2 = false) by (rewrite E; exact Nd).
+  assert (E6 : on_connect st2 = on_connect st) by (rewrite E; reflexivity).
+  destruct (neg_success_spec st2 E1) as (news & N1 & N2 & N3 & N4 & N5 & N6 & N7 & _).
+  destruct (neg_success st2) as [st3 o3]. cbn [fst snd] in *.
+  rewrite N6, E2. unfold sm_handle. cbn [fst snd].
+  exists news.
+  split; [rewrite N4; exact E3|].
+  split; [rewrite N1, R1, <- app_assoc; reflexivity|].
+  split; [rewrite (N2 E5), E6; reflexivity|].
+  split; [eapply Forall_impl; [|exact N3]; cbn; intros; change (next_gid st) with (next_gid st0); lia|].
+  split; [right; left; reflexivity|].
+  split; [rewrite N5; exact E4|split; [rewrite N6; exact E2|exact N7]].
 Qed.
 
 (* <failed/> with item-not-found after a resumption request: only what the server reports as handled (h, if it
@@ -567,41 +698,46 @@ Qed.
 
 (* <enabled/>: the whole SM queue is queued again, in order, and the inbound count restarts *)
 Lemma c04_enabled_step bt st ra id :
-  connected st = true -> h_sm st = true -> sm_enabled st = true -> (ra = true -> id <> None) ->
+  connected st = true -> h_sm st = true -> sm_enabled st = true -> neg_done st = false -> (ra = true -> id <> None) ->
   Forall (fun e => s_owner e = OUser) (smq st) ->
   let r := dispatch bt st (ISm (SmEnabled ra id)) in
-  smq (fst r) = [] /\ sqc (fst r) = sqc st ++ smqg st /\ handled_nr (fst r) = 0 /\ neg_done (fst r) = true.
+  exists news,
+  smq (fst r) = [] /\ sqc (fst r) = sqc st ++ smqg st ++ news /\
+  length news = length (on_connect st) /\ Forall (fun x => next_gid st <= x) news /\
+  handled_nr (fst r) = 0 /\ neg_done (fst r) = true.
 Proof.
-  intros C H Es Hid F. cbn zeta. unfold dispatch, fire. rewrite C, H. cbn [negb].
+  intros C H Es Nd Hid F. cbn zeta. unfold dispatch, fire. rewrite C, H. cbn [negb].
   unfold handle_sm. cbn [sm_enabled set_h_sm]. rewrite Es. cbn [negb].
   set (st0 := set_handled_nr (set_h_sm st false) 0).
   assert (exists st1, (if ra then match id with Some i => Some (set_sm_id (set_can_resume st0 true) (Some i)) | None => None end
                        else Some st0) = Some st1 /\ connected st1 = true /\ smq st1 = smq st /\ sqc st1 = sqc st /\
-                      handled_nr st1 = 0) as (st1 & Ea & C1 & Q1 & S1 & H1).
+                      handled_nr st1 = 0 /\ neg_done st1 = false /\ on_connect st1 = on_connect st /\
+                      next_gid st1 = next_gid st) as (st1 & Ea & C1 & Q1 & S1 & H1 & N1 & O1 & G1).
   { destruct ra; [destruct id as [i|]; [|exfalso; apply Hid; reflexivity]|]; eexists; split; try reflexivity; repeat split; auto. }
   rewrite Ea.
   assert (F1 : Forall (fun e => s_owner e = OUser) (smq st1)) by (rewrite Q1; exact F).
-  destruct (resend_g1 (smq st1) st1 C1 F1) as (R1 & _ & _).
+  destruct (resend_g1 (smq st1) st1 C1 F1) as (R1 & _ & R3).
   destruct (resend_frame (smq st1) st1) as (q & r1 & n & E & Sil).
   destruct (resend (smq st1) st1) as [st2 o2]. cbn [fst snd] in *.
+  assert (E1 : connected st2 = true) by (rewrite E; exact C1).
   assert (E3 : smq st2 = []) by (rewrite E; cbn; destruct (smq st1); reflexivity).
   assert (E5 : handled_nr st2 = 0) by (rewrite E; cbn; exact H1).
-  unfold neg_success.
-  destruct (neg_done st2) eqn:En; cbn [fst snd];
-    match goal with |- context[if ?b then _ else _] => destruct b end; unfold sm_handle; cbn [fst snd];
-    (split; [exact E3|split; [unfold sqc, sq_countable in *; cbn [sq set_neg_done] in *; rewrite R1, S1; unfold smqg; rewrite Q1; reflexivity
-                             |split; [exact E5|auto]]]).
+  assert (E6 : neg_done st2 = false) by (rewrite E; exact N1).
+  assert (E7 : on_connect st2 = on_connect st) by (rewrite E; exact O1).
+  destruct (neg_success_spec st2 E1) as (news & M1 & M2 & M3 & M4 & M5 & M6 & M7 & _ & _ & _ & M11).
+  destruct (neg_success st2) as [st3 o3]. cbn [fst snd] in *.
+  exists news.
+  match goal with |- context[if ?b then _ else _] => destruct b end; unfold sm_handle; cbn [fst snd];
+    (split; [rewrite M4; exact E3|
+     split; [rewrite M1, R1, S1, <- app_assoc; unfold smqg; rewrite Q1; reflexivity|
+     split; [rewrite (M2 E6), E7; reflexivity|
+     split; [eapply Forall_impl; [|exact M3]; cbn; intros; lia|
+     split; [rewrite M11; exact E5|exact M7]]]]]).
 Qed.
 
 (* ------------------------------------------------------------------ conservation, on every history *)
 Definition G1b (s : sys) : Prop := flags1 (fst s) /\ nolib (fst s) /\ fresh s /\ conserved_c s.
 
-Lemma filter_cq_tail q e tl : forallb (fun e => negb (countable (q_owner e))) tl = true ->
-  map q_gid (filter cq (q ++ e :: tl)) = map q_gid (filter cq q) ++ (if cq e then [q_gid e] else []).
-Proof.
-  intros T. rewrite filter_app. cbn [filter]. rewrite (filter_none cq tl T). rewrite map_app.
-  destruct (cq e); reflexivity.
-Qed.
 Lemma nolib_tail q e tl : Forall (fun e => q_owner e <> OLib) q -> q_owner e <> OLib ->
   forallb (fun e => negb (countable (q_owner e))) tl = true -> Forall (fun e => q_owner e <> OLib) (q ++ e :: tl).
 Proof.
@@ -612,15 +748,6 @@ Qed.
 Lemma fresh_mono l a b : Forall (fun x => x < a) l -> a <= b -> Forall (fun x : Z => x < b) l.
 Proof. intros F H. eapply Forall_impl; [|exact F]. cbn. intros; lia. Qed.
 
-(* appending one element with _send_raw: effect on the counted queue *)
-Lemma sqc_send st q g o t rs tl r n :
-  q = sq st ++ mk_sqe g o t 0 rs :: tl ->
-  forallb (fun e => negb (countable (q_owner e))) tl = true ->
-  sqc (set_next_gid (set_r_sent (set_sq st q) r) n) = sqc st ++ (if countable o then [g] else []).
-Proof.
-  intros E T. subst q. unfold sqc, sq_countable. cbn [sq set_next_gid set_r_sent set_sq]. fold cq.
-  rewrite filter_cq_tail by exact T. reflexivity.
-Qed.
 
 Lemma G1b_send bt s t : G1b s -> G1b (sys_step bt s (ASend t)).
 Proof.
@@ -850,12 +977,28 @@ Definition fire_ok (st : state) (g : ghost) (r : state * list out) : Prop :=
 
 Lemma neg_success_frame st :
   connected (fst (neg_success st)) = connected st /\ h_feat (fst (neg_success st)) = h_feat st.
-Proof. unfold neg_success. destruct (neg_done st); split; reflexivity. Qed.
+Proof.
+  unfold neg_success. destruct (neg_done st); [split; reflexivity|].
+  destruct (script_spec (on_connect (set_neg_done st true)) (set_neg_done st true)) as (q & r & n & ids & E & _ & _).
+  destruct (run_script (on_connect (set_neg_done st true)) (set_neg_done st true)) as [st2 o2]. cbn [fst snd] in *.
+  rewrite E. split; reflexivity.
+Qed.
+
+Lemma G1b_script l st g : G1b (st, g) -> G1b (fst (run_script l st), gfold g (snd (run_script l st))).
+Proof.
+  revert st g; induction l as [|t l IH]; intros st g H; [exact H|].
+  cbn [run_script]. pose proof (G1b_send [] (st, g) t H) as H1. unfold sys_step, step in H1. cbn [fst snd] in H1.
+  destruct (user_send st t) as [st1 o1]. specialize (IH st1 (gfold g o1) H1).
+  destruct (run_script l st1) as [st2 o2]. cbn [fst snd] in *. rewrite gfold_app. exact IH.
+Qed.
 
 Lemma G1b_neg_success st g : G1b (st, g) -> G1b (fst (neg_success st), gfold g (snd (neg_success st))).
 Proof.
-  intros H. unfold neg_success. destruct (neg_done st); [exact H|]. cbn [fst snd]. gn.
-  eapply G1b_view; [| |exact H]; reflexivity.
+  intros H. unfold neg_success. destruct (neg_done st); [exact H|].
+  assert (H1 : G1b (set_neg_done st true, g)) by (eapply G1b_view; [| |exact H]; reflexivity).
+  pose proof (G1b_script (on_connect (set_neg_done st true)) _ _ H1) as H2.
+  destruct (run_script (on_connect (set_neg_done st true)) (set_neg_done st true)) as [st2 o2]. cbn [fst snd] in *.
+  gn. exact H2.
 Qed.
 
 Lemma G1b_features bt st g smo :
@@ -923,7 +1066,7 @@ Proof.
       [reflexivity|reflexivity|apply G1b_flags; assumption]. }
   destruct (sm_support (set_bound (set_h_bind st false) true)).
   - apply G1b_sm_enable; [exact H0|exact C|exact Hf].
-  - split; [apply G1b_neg_success, H0|]. unfold neg_success. destruct (neg_done _); exact C.
+  - split; [apply G1b_neg_success, H0|]. rewrite (proj1 (neg_success_frame _)). exact C.
 Qed.
 
 Lemma G1b_sm_err st g : G1b (st, g) -> connected st = true -> h_feat st = false -> fire_ok st g (sm_err st).
@@ -1077,7 +1220,7 @@ Qed.
 Lemma G1b_step bt s a : G1b s -> G1b (sys_step bt s a).
 Proof.
   destruct s as [st g]. intros H.
-  destruct a as [t|sched|it| | |].
+  destruct a as [t|sched|it| | | |l0].
   - apply (G1b_send bt (st, g) t H).
   - unfold sys_step, step. cbn [fst snd]. pose proof (G1b_write st g sched H) as W. cbn zeta in W.
     destruct (write_phase st sched) as [[st1 o] sl]. exact W.
@@ -1095,6 +1238,7 @@ Proof.
     destruct (disconnect st) as [st2 o2]. exact H2.
   - unfold sys_step, step. cbn [fst snd]. pose proof (G1b_connect _ _ H) as H2.
     destruct (do_connect st) as [st2 o2]. exact H2.
+  - unfold sys_step, step. cbn [fst snd]. eapply G1b_view; [| |exact H]; reflexivity.
 Qed.
 
 Lemma G1b_init : G1b sys0.
@@ -1151,7 +1295,7 @@ Lemma disc_step bt s a :
     end.
 Proof.
   destruct s as [st g]. unfold sys_step, step. cbn [fst snd].
-  destruct a as [t|sched|it| | |].
+  destruct a as [t|sched|it| | | |l0].
   - unfold user_send. destruct (connected st && neg_done st); [|reflexivity]. abs_send. cbn [fst snd]. gn. gsil. reflexivity.
   - unfold write_phase. destruct (connected st); [|reflexivity].
     destruct (wloop_g1 (sq st) sched st g) as (_ & _ & _ & W4 & W5 & _).
@@ -1170,6 +1314,7 @@ Proof.
     destruct (disconnect (set_can_resume st false)) as [st2 o2]. cbn [fst snd] in *. rewrite gfold_cons. exact D.
   - pose proof (disc_disconnect st g) as D. destruct (disconnect st) as [st2 o2]. exact D.
   - unfold do_connect. destruct (connected st); reflexivity.
+  - reflexivity.
 Qed.
 
 (* outside the known class nothing that had been written before is ever discarded *)
